@@ -319,6 +319,18 @@ def offspringX (s : State α) (p : Nat) (z : List α) : List α :=
 def retag (s : State α) : State α :=
   { s with parents := (List.zipIdx s.parents).map (fun p => { p.1 with off := false, pidx := p.2 }) }
 
+/-- The `_ps` attributes the individuals handed to `__init__` may already carry: individuals that
+went through another `StrategyMultiObjective` (a restart from its parents after sorting / filtering
+them, or from its last offspring) keep that strategy's tags, `("p", old index)` or `("o", index of
+the old parent)`.  `setTags s tags` is `s` with the tag of parent `i` replaced by `tags[i]` (parents
+beyond the end of `tags` keep theirs); nothing else of the state depends on the tags.  A fresh
+individual (no `_ps` attribute) is any value here: `retag` overwrites it before it is read. -/
+def setTags (s : State α) (tags : List (Bool × Nat)) : State α :=
+  { s with parents := (List.zipIdx s.parents).map (fun p =>
+      match tags[p.2]? with
+      | some t => { p.1 with off := t.1, pidx := t.2 }
+      | none => p.1) }
+
 /-- `generate` (cma.py:397-431).  `arz` = the `lambda_ × dim` normal draws, `firstFront` = the
 non-dominated front of the (re-tagged) parents, `draws` = the `numpy.random.randint` results.
 Returns the re-tagged parents and, per offspring, its genome and parent index (`"o", p_idx`). -/
@@ -403,6 +415,14 @@ def update (s : State α) (nobj : Nat) (sortND : List (MInd α) → List (List (
   match select s.prm.mu nobj sortND indicator (population ++ s.parents) with   -- :497
   | none => none
   | some (chosen, notChosen) => some (realign s chosen notChosen, notChosen)
+
+/-- One generate/update round as `update` sees it: `generate` has overwritten the tag of EVERY
+parent with `("p", i)` (cma.py:412-413, unconditionally — whatever `_ps` the individual carried),
+then `update` selects among `population ++ parents` and realigns the per-parent lists by the tags. -/
+def round (s : State α) (nobj : Nat) (sortND : List (MInd α) → List (List (MInd α)))
+    (indicator : List (MInd α) → List α → Nat) (population : List (MInd α)) :
+    Option (State α × List (MInd α)) :=
+  update (retag s) nobj sortND indicator population
 
 /-- Any number of generate/update rounds: `generate` re-tags the parents (its sampling only decides
 which genomes are evaluated; the theorems quantify over all offspring lists), `update` selects and
